@@ -4,6 +4,7 @@ package samlsp
 
 import (
 	"net/http"
+	"strconv"
 	"time"
 
 	"github.com/golang-jwt/jwt/v4"
@@ -138,4 +139,65 @@ func Harness_C16_attribute() {
 	if !ran {
 		verifAssert(w.Status == http.StatusForbidden, "C16/attribute/refusal-is-forbidden")
 	}
+}
+
+// Harness_C16_new: the claims a session is minted with are exactly the assertion's: the subject is the
+// NameID, every claim name (friendly name, else name) carries the values of all attributes of that
+// name in document order - also when a name occurs in several attributes or statements - and nothing else
+// but the session indexes.
+func Harness_C16_new() {
+	codec := JWTSessionCodec{Audience: "aud", Issuer: "iss", MaxAge: time.Hour}
+	names := []string{"groups", "role"}
+	a := &saml.Assertion{Subject: &saml.Subject{NameID: &saml.NameID{Value: verifNondetString("nameid")}}}
+	want := map[string][]string{}
+	k := 0
+	for s := 0; s < 2; s++ {
+		st := saml.AttributeStatement{}
+		na := 1 + verifChoose("st"+strconv.Itoa(s)+".attrs", 2)
+		for i := 0; i < na; i++ {
+			tag := "st" + strconv.Itoa(s) + ".a" + strconv.Itoa(i)
+			name := names[verifChoose(tag+".name", len(names))]
+			attr := saml.Attribute{Name: name}
+			if verifChoose(tag+".friendly", 2) == 1 {
+				attr = saml.Attribute{Name: "urn:oid:" + strconv.Itoa(k), FriendlyName: name}
+			}
+			nv := 1 + verifChoose(tag+".values", 2)
+			for j := 0; j < nv; j++ {
+				v := verifNondetString("v" + strconv.Itoa(k))
+				k++
+				attr.Values = append(attr.Values, saml.AttributeValue{Type: "xs:string", Value: v})
+				want[name] = append(want[name], v)
+			}
+			st.Attributes = append(st.Attributes, attr)
+		}
+		a.AttributeStatements = append(a.AttributeStatements, st)
+	}
+	sess, err := codec.New(a)
+	verifAssert(err == nil, "C16/new/no-error")
+	if err != nil {
+		return
+	}
+	claims, ok := sess.(JWTSessionClaims)
+	verifAssert(ok, "C16/new/claims-type")
+	if !ok {
+		return
+	}
+	verifReach("minted")
+	verifAssert(claims.Subject == a.Subject.NameID.Value, "C16/new/subject-is-the-name-id")
+	for _, name := range names {
+		got := claims.Attributes[name]
+		verifAssert(len(got) == len(want[name]), "C16/new/attribute-value-count")
+		if len(got) == len(want[name]) {
+			for i := range got {
+				verifAssert(got[i] == want[name][i], "C16/new/attribute-values-are-the-assertions")
+			}
+		}
+	}
+	n := 0
+	for name := range claims.Attributes {
+		if name != "groups" && name != "role" {
+			n++
+		}
+	}
+	verifAssert(n == 0, "C16/new/no-other-attributes")
 }
